@@ -381,6 +381,7 @@ func main() {
 	loadConsts("docker", filepath.Join(repo, "internal/docker"))
 	loadConsts("spec", filepath.Join(repo, "internal/spec"))
 	loadConsts("descriptor", filepath.Join(repo, "internal/descriptor"))
+	loadConsts("remote", filepath.Join(repo, "registry/remote"))
 	if d := modDir("github.com/opencontainers/image-spec"); d != "" {
 		loadConsts("ocispec", filepath.Join(d, "specs-go/v1"))
 	} else {
